@@ -12,6 +12,7 @@ shows when a LATER program uses the same identifier in another role.  This modul
     name in role b with b's probes; B' = B + one probe of role a (normally rejected: a leak that makes it acceptable shows too);
     B" = B' + another name in role a (so that the per-call table role a creates exists in B" as well);
     sessions `A B B' B"` (all pairs in one process) against the reference session `B B' B"` (no A ever transpiled);
+    and for every role the pair (a, a) with OTHER DETAILS in B (pins, geometry, values, element types, function bodies / return types);
   * pool sessions: programs that give 3-5 names of ONE small pool random roles, transpiled in several orders in one process and
     compared with the text each has right after a module reset / in a fresh process (adjacent leaks, counters, multi-name);
   * interleavings of parse() and emit() of different programs, and emit() of one Program object twice;
@@ -62,6 +63,19 @@ ROLES = {
 }
 ROLE_NAMES = sorted(ROLES)
 
+# the SAME role with other details (pins, geometry, values, element types, function bodies and return types): what one
+# program records under a name - a pin, a model, a signature, a compiled function variant - must not be what the next one finds
+ALT_DECL = {
+    "servo": ["{X} = Servo(10, min_angle=10, max_angle=90)"], "pot": ['{X} = Potentiometer("A3")'], "serial": ["{X} = SerialMonitor(57600)"],
+    "ultra": ["{X} = Ultrasonic(trig=5, echo=6)"], "button": ["{X} = Button(12)"], "led": ["{X} = Led(6)"], "rgb": ["{X} = RGBLed(9, 10, 11)"],
+    "buzzer": ["{X} = Buzzer(8)"], "motor": ["{X} = DCMotor(4, 7, 6)"], "lcd": ["{X} = LCD(rs=12, en=11, d4=5, d5=4, d6=3, d7=2, cols=20, rows=4)"],
+    "int": ["{X} = 40"], "float": ["{X} = 0.25"], "str": ['{X} = "other"'], "bool": ["{X} = False"], "list": ["{X} = [7.5, 8.5]"],
+    "flist": ["{X} = [3, 4, 5]"], "func": ["def {X}(a, b):\n    return a * b + 0.5"], "sfunc": ["def {X}(a):\n    return len(a)"],
+    "proc": ["def {X}():\n    sleep(7)\n    sleep(8)"], "param": ['def fn_{X}({X}, other):\n    return "p" + {X}'],
+    "loopvar": ["acc_{X} = 0.5"], "callback": ["def {X}():\n    sleep(9)", "btn_{X} = Button(7, on_click={X})"],
+    "swap": ["{X}, oth_{X} = 1.5, 2.5"], "comp": ["src_{X} = [4.5]"], "local": ['def use_{X}():\n    {X} = "s"\n    return {X} + "t"'],
+}
+
 
 class Qs:
     def __init__(self, prefix):
@@ -81,13 +95,15 @@ def _fmt(line, X, qs, mon):
     return out.replace("{X}", X).replace("{m}", mon)
 
 
-def role_program(assign, probes=True, foreign=None, loop=True, mon="mon_"):
+def role_program(assign, probes=True, foreign=None, loop=True, mon="mon_", alt=False):
     """assign: [(name, role)...]; foreign: (name, role_a) -> one probe of role_a is applied to `name` as well.
     -> source text"""
     qs = Qs("q_")
     defs, decl, body, loopl = [], [f"{mon} = SerialMonitor(115200)"], [], []
     for X, role in assign:
         d, p, l = ROLES[role]
+        if alt:
+            d = ALT_DECL[role]
         for line in d:
             (defs if line.startswith("def ") else decl).append(_fmt(line, X, qs, mon))
     for X, role in assign:
@@ -115,6 +131,12 @@ def pair_programs(rng, tier):
     for a in ROLE_NAMES:
         for b in ROLE_NAMES:
             if a == b:
+                # same role, other details: A = the usual declaration, B = the alternative one (and the other way round in B")
+                k += 1
+                name = f"nm{k}_"
+                out.append({"a": a, "b": b, "name": name, "A": role_program([(name, a)]), "B": role_program([(name, a)], alt=True),
+                            "Bf": role_program([(name, a)], alt=True, loop=False),
+                            "Bg": role_program([(name, a), (name + "o", a)], alt=True)})
                 continue
             k += 1
             name = f"nm{k}_"
@@ -259,6 +281,19 @@ def report(ctx, C, seed, what, key, before_candidates, prog, extra, budget):
     budget[key] = budget.get(key, 0) + 1
     for before in before_candidates:
         differs, alone, after = confirm(C, seed, before, prog)
+        if differs and len(before) > 1:
+            # shrink the prefix: keep the half that still reproduces, as long as one does
+            cur = list(before)
+            while len(cur) > 1:
+                h = len(cur) // 2
+                for part in (cur[h:], cur[:h]):
+                    d2, al2, af2 = confirm(C, seed, part, prog)
+                    if d2:
+                        cur, alone, after = part, al2, af2
+                        break
+                else:
+                    break
+            before = cur
         if differs:
             case = {"earlier_programs_in_the_same_process": list(before), "program": prog, "hashseed": seed,
                     "unified_diff": _udiff(alone.get("cpp") or alone["sha"], after.get("cpp") or after["sha"], "program alone (fresh process)",
@@ -292,28 +327,32 @@ def run_collisions(ctx, C, seed, have_model):
         sources += [p["A"], p["B"], p["Bf"], p["Bg"]]
         idx.append(base)
     ref = run_ops(C, sources, [op for b in idx for op in (["t", b + 1], ["t", b + 2], ["t", b + 3])], seed)
-    s1 = run_ops(C, sources, [op for b in idx for op in (["t", b], ["t", b + 1], ["t", b + 2], ["t", b + 3])], seed)
+    ops1 = [op for b in idx for op in (["t", b], ["t", b + 1], ["t", b + 2], ["t", b + 3])]
+    s1 = run_ops(C, sources, ops1, seed)
     order2 = list(reversed(range(len(idx))))
     pos2 = {k: j for j, k in enumerate(order2)}
-    s2 = run_ops(C, sources, [["t", b] for b in idx] + [op for k in order2 for op in (["t", idx[k] + 1], ["t", idx[k] + 2], ["t", idx[k] + 3])], seed)
+    ops2 = [["t", b] for b in idx] + [op for k in order2 for op in (["t", idx[k] + 1], ["t", idx[k] + 2], ["t", idx[k] + 3])]
+    s2 = run_ops(C, sources, ops2, seed)
     n_rej_foreign = 0
+    dist["role_pairs_same_role_other_details"] = sum(1 for p in pairs if p["a"] == p["b"])
     for k, (p, b) in enumerate(zip(pairs, idx)):
         rB, rBf, rBg = ref[3 * k], ref[3 * k + 1], ref[3 * k + 2]
         if not rB["ok"]:
             ctx.disagree("role program rejected by the transpiler (generator bug)", p["B"], None, rB)
         n_rej_foreign += 0 if rBf["ok"] else 1
         o2 = len(idx) + 3 * pos2[k]
-        got = {"B": [s1[4 * k + 1], s2[o2]], "Bf": [s1[4 * k + 2], s2[o2 + 1]], "Bg": [s1[4 * k + 3], s2[o2 + 2]]}
+        got = {"B": [(s1[4 * k + 1], ops1, 4 * k + 1), (s2[o2], ops2, o2)], "Bf": [(s1[4 * k + 2], ops1, 4 * k + 2), (s2[o2 + 1], ops2, o2 + 1)],
+               "Bg": [(s1[4 * k + 3], ops1, 4 * k + 3), (s2[o2 + 2], ops2, o2 + 2)]}
         if not s1[4 * k]["ok"]:
             ctx.disagree("role program rejected by the transpiler (generator bug)", p["A"], None, s1[4 * k])
         for which, r0 in (("B", rB), ("Bf", rBf), ("Bg", rBg)):
-            for r in got[which]:
+            for r, ops_, pos_ in got[which]:
                 evaluations += 1
                 if r["sha"] != r0["sha"]:
                     report(ctx, C, seed,
                            f"a program that uses a name in role `{p['b']}` comes out differently after an unrelated program that used the same "
-                           f"name in role `{p['a']}` was transpiled in the same process",
-                           "name-collision", [[p["A"]], [q["A"] for q in pairs[: k + 1]]], p[which],
+                           f"name in role `{p['a']}`" + (" (with other pins / values / body)" if p["a"] == p["b"] else "") + " was transpiled in the same process",
+                           "name-collision", [[p["A"]], [sources[o[1]] for o in ops_[:pos_]]], p[which],
                            {"name": p["name"], "role_in_the_earlier_program": p["a"], "role_in_this_program": p["b"],
                             "origin": "role pair" + {"B": "", "Bf": " + one probe of the earlier role",
                                                      "Bg": " + another name in the earlier role + one probe of the earlier role"}[which]}, budget)
